@@ -212,7 +212,7 @@ void StrCompSplitLeft(tStrComp* pSrc, tStrComp* pDest, char* pSrcSplitPos) {
 
 void StrCompSplitCopy(
         tStrComp* pLeft, tStrComp* pRight, tStrComp const* pSrc, char* pSplitPos) {
-    /* pLeft may be equal to pSrc, use memmove() and save SrcLen */
+    /* pLeft or pRight may be equal to pSrc, use memmove() and save SrcLen */
 
     size_t SrcLen = pSrc->Pos.Len;
 
@@ -225,7 +225,7 @@ void StrCompSplitCopy(
     check_capacity(pRight);
     pRight->Pos.StartCol = pSrc->Pos.StartCol + (pLeft->Pos.Len + 1);
     pRight->Pos.Len      = check_realloc(&pRight->str, SrcLen - (pLeft->Pos.Len + 1));
-    memcpy(pRight->str.p_str, pSplitPos + 1, pRight->Pos.Len);
+    memmove(pRight->str.p_str, pSplitPos + 1, pRight->Pos.Len);
     pRight->str.p_str[pRight->Pos.Len] = '\0';
 }
 
